@@ -17,7 +17,7 @@ for pid in sorted(os.listdir(V + "/seeded")):
         print(pid, "patch does not apply to the current tree"); meta["history"].append({"when": time.strftime("%F %T"), "result": "patch does not apply"}); json.dump(meta, open(d + "/meta.json", "w"), indent=1); continue
     try:
         runs = []
-        for chk in EXTRA.get(pid, [pid]):
+        for chk in EXTRA.get(pid, [meta["property"]]) if "-" not in pid else [meta["property"]]:
             p = subprocess.run([V + "/bin/check", chk, "--tier", "quick"], cwd=V, capture_output=True, text=True, env=dict(os.environ, VERIF_SEED=os.environ.get("VERIF_SEED", "1")))
             first = next((l.strip() for l in p.stdout.splitlines() if l.startswith("  violation class")), "")
             runs.append({"check": chk, "exit": p.returncode, "first_class": first[:220]})
